@@ -556,3 +556,50 @@ contract('Node.value_iteration_rewards', virtual=True, implementations=['Probabi
          requires=[SUCC_IN_RANGE, "0 <= cls(self) and cls(self) <= 2", RP01, ER_NN], modifies={},
          ensures=[f"result[0] == BW(cls(self), self.reward, {NS_}, state_list, ER)"],
          props=['C02', 'C14', 'C05', 'C06', 'C13'])
+
+# ------------------------------------------------------------------ the reward sweep (C02, C14, C06)
+def nodeq(q):
+    return f"{SL_}[{q}]"
+
+
+def BWq(q, X):
+    return f"BW(cls({nodeq(q)}), {nodeq(q)}.reward, lcontent({nodeq(q)}.next_states), {SL_}, {X})"
+
+
+def wbw(q, r):
+    return f"exists(p, 0, {q}, {nodeq('p')} == {r})"
+
+
+PROPERW_S = (f"forall(a, 0, len({SL_}), implies(cls({SL_}[a]) == 0 and len({SL_}[a].next_states) > 0, forall(k, 0, len({SL_}[a].next_states), prob(lcontent({SL_}[a].next_states)[k]) >= 0)"
+             f" and SumP(lcontent({SL_}[a].next_states), len({SL_}[a].next_states)) == 1))")
+ENN = f"forall(t, 0, len({SL_}), ER[{SL_}[t]] >= 0)"
+REWNN = f"forall(t, 0, len({SL_}), {SL_}[t].reward >= 0)"
+
+
+def residW(bound):
+    return f"forall(q, 0, len({SL_}), abs(ER[{nodeq('q')}] - {BWq('q', 'ER')}) <= {bound})"
+
+
+W_FRAME = [f"forall(r, implies(not exists(p, 0, len({SL_}), {SL_}[p] == r), {h}[r] == old({h}[r])))" for h in ('ER', 'EMR', 'ERM')]
+contract('Solver.value_iteration_total_rewards', heap=SOLVER_HEAP,
+         params={'self': REF('Solver')}, result=INT, opaque=('BW', 'MaxS', 'MinS', 'SumS', 'SumP', 'MinW0', 'LastMax', 'LastMin'),
+         locals={'diff': REAL, 'i': INT, 'max_diff': REAL, 'state': NODE, 'expected_rewards_next': REAL, 'expected_rewards_min_reach': REAL,
+                 'expected_reach_min_rewards': REAL, 'current_diff_expected_rew': REAL, 'current_diff_min_reach': REAL, 'current_diff_reach': REAL, 'current_diff': REAL},
+         requires=VALID(SL_) + [PROPERW_S, REWNN, RP01_S, ENN, "self.threshold > 0", "self.threshold < 1"],
+         ensures=[residW("self.threshold"), ENN, "result >= 1"],
+         modifies={f: [f"exists(p, 0, len({SL_}), {SL_}[p] == _o)"] for f in ('expected_rewards', 'expected_rewards_min_reach', 'expected_reach_min_rewards')},
+         loops={
+             0: dict(inv=[ENN, "diff >= 0", "i >= 0", "implies(i == 0, diff == 1)", f"implies(i >= 1, {residW('diff')})"] + W_FRAME,
+                     ghost_decl=[('x_old', AR), ('snap', AAR)], ghost_mod=[('x_old', AR), ('snap', AAR)], ghost_pre=[('x_old', AR, 'ER')],
+                     heap_mod=['expected_rewards', 'expected_rewards_min_reach', 'expected_reach_min_rewards'],
+                     use={4: [f"forall(q, 0, len({SL_}), L_BW_lip(cls({nodeq('q')}), {nodeq('q')}.reward, lcontent({nodeq('q')}.next_states), {SL_}, snap[q], ER, max_diff))"]}),
+             1: dict(inv=[f"forall(r, implies(not {wbw('_i1', 'r')}, ER[r] == x_old[r]))",
+                          f"forall(q, 0, _i1, abs(ER[{nodeq('q')}] - x_old[{nodeq('q')}]) <= max_diff)",
+                          f"forall(q, 0, _i1, ER[{nodeq('q')}] == {BWq('q', 'snap[q]')})",
+                          f"forall(q, 0, _i1, forall(r, snap[q][r] == (ER[r] if {wbw('q', 'r')} else x_old[r])))",
+                          ENN, "max_diff >= 0"] + W_FRAME,
+                     ghost_mod=[('snap', AAR)], ghost_pre=[('snap', AAR, 'store(snap, _i1, ER)')],
+                     hint_pre=[f"forall(p, 0, len({SL_}), forall(p2, 0, len({SL_}), implies(p != p2, {SL_}[p] != {SL_}[p2])))"],
+                     use={4: [f"L_BW_nonneg(cls({nodeq('_i1 - 1')}), {nodeq('_i1 - 1')}.reward, lcontent({nodeq('_i1 - 1')}.next_states), {SL_}, snap[_i1 - 1])"]})},
+         termination_unproved=True,
+         props=['C02', 'C14', 'C05', 'C06', 'C13'])
